@@ -1,10 +1,11 @@
 import BibVerif.Wire.Split
 import BibVerif.Wire.AddAll
 import BibVerif.Wire.Stack
+import BibVerif.Wire.Heap
 namespace Bib.Wire
 
 /-- every command the driver understands -/
 def handlers : List (String × Handler) :=
-  splitHandlers ++ addAllHandlers ++ stackHandlers
+  splitHandlers ++ addAllHandlers ++ stackHandlers ++ heapHandlers
 
 end Bib.Wire
